@@ -332,7 +332,9 @@ type httpRig struct {
 func (g *httpRig) setPlan(p *httpResp) { g.mu.Lock(); g.plan = p; g.mu.Unlock() }
 func (g *httpRig) getPlan() *httpResp  { g.mu.Lock(); defer g.mu.Unlock(); return g.plan }
 
-func newHTTPRig(down, up string) (*httpRig, error) {
+// useStream (Http2 listener): the proxy runs HTTP/2 in streaming mode (extend_config {"Http2": {"http2_use_stream": true}},
+// documented, off by default): bodies are passed on as they arrive instead of being collected first.
+func newHTTPRig(down, up string, useStream ...bool) (*httpRig, error) {
 	g := &httpRig{down: down, up: up, seen: make(chan *seenReq, 16)}
 	if up == "Http1" {
 		g.up1 = mesh.NewRawServer(func(id int, c net.Conn) {
@@ -400,6 +402,9 @@ func newHTTPRig(down, up string) (*httpRig, error) {
 			typ = "http2Tohttp"
 		}
 		o.StreamFilters = []v2.Filter{{Type: "transcoder", Config: map[string]interface{}{"type": typ}}}
+	}
+	if len(useStream) > 0 && useStream[0] {
+		o.ProxyExtend = map[string]interface{}{"Http2": map[string]interface{}{"http2_use_stream": true}}
 	}
 	cs, err := mesh.NewCaseBound(o)
 	if err != nil {
@@ -503,11 +508,15 @@ func TestPropE2EHTTP(t *testing.T) {
 	ev.Check(t, func(rt *rapid.T) {
 		pair := rapid.SampledFrom([][2]string{{"Http1", "Http1"}, {"Http1", "Http1"}, {"Http1", "Http2"}, {"Http2", "Http1"}, {"Http2", "Http2"}, {"Http2", "Http2"}}).Draw(rt, "pairing")
 		n := rapid.IntRange(1, 3).Draw(rt, "nExchanges")
-		g, err := newHTTPRig(pair[0], pair[1])
+		useStream := pair[0] == "Http2" && pair[1] == "Http2" && rapid.Bool().Draw(rt, "http2UseStream")
+		g, err := newHTTPRig(pair[0], pair[1], useStream)
 		if err != nil {
 			rt.Skip("rig: " + err.Error())
 		}
 		defer g.close()
+		if useStream {
+			ev.Class(partHTTP, "http2_use_stream")
+		}
 		// Oracle failures are collected over the whole case and raised at its end, so that a listed known
 		// finding (several are pervasive: default Content-Type, default User-Agent) does not hide what else
 		// the same exchange or a later exchange on the connection would show.
